@@ -38,7 +38,9 @@ package biscuit
 //@ modifies nothing
 //@ loop 0 invariant (forall j int :: { opts[j] } 0 <= j && j < #i ==> !(opts[j] is rootKeyIDOption)) ==> options.rootKeyID == nil
 //@ loop 0 invariant #i > 0 && opts[#i-1] is rootKeyIDOption ==> options.rootKeyID != nil && *options.rootKeyID == opts[#i-1].(rootKeyIDOption)
+//@ loop 0 invariant rng: #i > 0 && opts[#i-1] is rngOption && opts[#i-1].(rngOption).Reader != nil ==> options.rng == opts[#i-1].(rngOption).Reader
 //@ ensures no_token_on_error: err != nil ==> res == nil
+//@ ensures entropy_failure_is_reported[C20]: len(opts) > 0 && opts[len(opts)-1] is rngOption && opts[len(opts)-1].(rngOption).Reader != nil && !entropyOK(opts[len(opts)-1].(rngOption).Reader) ==> err != nil
 //@ ensures wf: err == nil ==> wfToken(res) && len(res.blocks) == 0 && res.authority == authority
 //@ ensures keyid_absent[C16]: err == nil && (forall j int :: { opts[j] } 0 <= j && j < len(opts) ==> !(opts[j] is rootKeyIDOption)) ==> res.container.RootKeyId == nil
 //@ ensures keyid_last[C16]: err == nil && len(opts) > 0 && opts[len(opts)-1] is rootKeyIDOption ==> res.container.RootKeyId != nil && *res.container.RootKeyId == opts[len(opts)-1].(rootKeyIDOption)
@@ -53,6 +55,7 @@ package biscuit
 //@ loop 0 invariant len(blocks) == len(b.blocks) + 1 && fresh(arr(blocks)) && fresh(authority) && wfBlock(authority)
 //@ loop 0 invariant content: *authority == *b.authority && (forall j int :: { blocks[j] } 0 <= j && j < #i ==> *blocks[j] == *b.blocks[j])
 //@ ensures no_token_on_error: err != nil ==> res == nil
+//@ ensures entropy_failure_is_reported[C20]: !entropyOK(rng) ==> err != nil
 //@ ensures refuses_sealed: !hasNextSecret(b.container.Proof) ==> err != nil
 //@ ensures wf_blocks: err == nil ==> res != nil && wfBlock(res.authority) && res.symbols != nil && len(res.blocks) == len(b.blocks) + 1 && (forall i int :: { res.blocks[i] } 0 <= i && i < len(res.blocks) ==> wfBlock(res.blocks[i]))
 //@ ensures wf_envelope: err == nil ==> wfContainer(res.container) && len(res.blocks) == len(res.container.Blocks)
@@ -944,6 +947,7 @@ package biscuit
 //@ serves C10 C20
 //@ requires len(root) == 64 && baseSymbols != nil && blockWF(authority)
 //@ modifies nothing
+//@ ensures entropy_failure_is_reported[C20]: rng != nil && !entropyOK(rng) ==> err != nil
 //@ ensures no_token_on_error[C20]: err != nil ==> res == nil
 //@ ensures wf: err == nil ==> wfToken(res) && len(res.blocks) == 0 && res.authority == authority
 
